@@ -243,7 +243,7 @@ def check(tier):
         rep.failure("layout", {"layout"}, {"input_text": variant, "base_text": sp, "base_result": a, "variant_result": b})
 
     # (c) padding sweep: every alignment of the tokens against both half boundaries
-    pad_specs = [S.gen_wellformed(rng, collide=0.0) for _ in range(3 if tier == "quick" else 40)]
+    pad_specs = [S.gen_wellformed(rng, collide=0.0) for _ in range(3 if tier == "quick" else 8)]
     pads = list(range(0, 2 * HALF + 65)) if tier != "quick" else (
         list(range(0, 40)) + list(range(HALF - 80, HALF + 40)) + list(range(2 * HALF - 80, 2 * HALF + 65)) + [rng.randint(0, 2 * HALF) for _ in range(60)])
     pad_bad, pad_known, npad = [], [], 0
@@ -252,7 +252,7 @@ def check(tier):
         r0 = spec_result(hook.call({"op": "spec", "text": sp}))
         t0 = hook.call({"op": "lex", "text": sp}).get("tokens", [])
         for k in pads:
-            for padder in ((" " * k), ("\n" * k)) if tier != "quick" or k % 7 == 0 else ((" " * k),):
+            for padder in ((" " * k), ("\n" * k)) if k % 7 == 0 else ((" " * k),):
                 text = padder + sp
                 npad += 1
                 predicted = lookahead_at_boundary(text, doc, dlab)
